@@ -219,6 +219,18 @@ PrintObjOK(ts, vs, o) ==
         /\ Len(tk) = 2 * Len(vs)
         /\ \A i \in 1..Len(vs) : ts[i] = "c" \/ TextDenotes(ts[i], vs[i], 10, tk[2 * i], "none", None))
 
+(* prints through a sink (callback that may take fewer bytes than offered):   *)
+(* off = every byte the printer offered, text = what the sink holds.  A print  *)
+(* that reports success delivered each numeral it produced completely -- it is *)
+(* refused, or the sink content carries the full numerals, never a cut one.    *)
+(* (punctuation / property names are not numbers: not compared)                *)
+NumTokens(s)  == SelectSeq(TokensOn(s, Blanks), LAMBDA x : x # <<91>> /\ x # <<93>>)
+SinkOK(o)     == o.r = "ok" => NumTokens(o.text) = NumTokens(o.off)
+SinkObjOK(n, o) ==
+  o.r = "ok" => LET a == TokensOn(o.text, Blanks \cup {123, 125, 44, 61})
+                    b == TokensOn(o.off, Blanks \cup {123, 125, 44, 61})
+                IN \A i \in 1..n : 2 * i <= Len(a) /\ 2 * i <= Len(b) /\ a[2 * i] = b[2 * i]
+
 ---------------------------------------------------------------------------
 (***************************************************************************)
 (* Tier 2: design of the printer (snprintf)                                *)
@@ -327,6 +339,50 @@ DesignPrint(t, v, f, left) ==
 MinLen(v, radix) == (IF v.neg = 1 THEN 1 ELSE 0) + Len(ToDigits(Shl(v.m, v.e), radix))
 MustRefuse(t, v, radix, left) ==
   TypeTab[t].kind = "int" /\ t # "c" /\ (v.neg = 0 \/ radix = 10) /\ MinLen(v, radix) >= left
+
+(***************************************************************************)
+(* Tier 2: prints through a sink (print_value.c).  The printer offers      *)
+(* pieces; the sink takes each piece according to its policy:              *)
+(*   "all"   the piece completely, or an error                             *)
+(*   "part"  what still fits into the total capacity (short count)         *)
+(*   "cap"   at most cap bytes of every piece, and what still fits         *)
+(* A piece p = [s, need]: the printer goes on when at least `need` bytes   *)
+(* were taken (numerals: all of them; "[ ": 2; " ": 1; "]": error only).   *)
+(***************************************************************************)
+Took(pol, cap, room, n) ==        \* bytes taken of a piece of n bytes; -1 = error
+  LET m == IF pol = "cap" /\ n > cap THEN cap ELSE n IN
+  IF m > room THEN (IF pol = "all" THEN -1 ELSE room) ELSE m
+
+SObs(r, text, off) == [r |-> r, text |-> text, off |-> off, ov |-> 0, pr |-> "none", pw |-> None]
+RECURSIVE SinkRun(_, _, _, _, _, _, _)
+SinkRun(ps, i, pol, cap, left, acc, off) ==
+  IF i > Len(ps) THEN SObs("ok", acc, off)
+  ELSE LET p == ps[i]
+           k == Took(pol, cap, left - Len(acc), Len(p.s))
+       IN IF k < 0 \/ k < p.need THEN SObs("refused", << >>, off \o p.s)
+          ELSE SinkRun(ps, i + 1, pol, cap, left, acc \o SubSeq(p.s, 1, k), off \o p.s)
+
+DefaultFmt   == [flags |-> 0, width |-> 0, dec |-> 0]
+NumeralOf(t, v) == DesignPrint(t, v, DefaultFmt, 256)       \* the 256 byte buffer of print_value.c
+Piece(s, need)  == [s |-> s, need |-> need]
+
+DesignSinkScalar(t, v, pol, cap, left) ==
+  LET nm == NumeralOf(t, v) IN
+  IF nm.r # "ok" THEN SObs(nm.r, << >>, << >>)
+  ELSE SinkRun(<<Piece(nm.text, Len(nm.text))>>, 1, pol, cap, left, << >>, << >>)
+
+DesignSinkVec(t, vs, pol, cap, left) ==
+  LET nms == [i \in 1..Len(vs) |-> NumeralOf(t, vs[i])] IN
+  IF \E i \in 1..Len(vs) : nms[i].r # "ok" THEN SObs("skip", << >>, << >>)
+  ELSE LET el(i) == <<Piece(nms[i].text, Len(nms[i].text)), Piece(<<32>>, 1)>>
+           RECURSIVE Els(_)
+           Els(i) == IF i > Len(vs) THEN << >> ELSE el(i) \o Els(i + 1)
+       IN SinkRun(<<Piece(<<91, 32>>, 2)>> \o Els(1) \o <<Piece(<<93>>, 0)>>, 1, pol, cap, left, << >>, << >>)
+
+(* no text with one numeral per element fits: refusal obliged *)
+SinkMustRefuse(t, vs, left) ==
+  /\ TypeTab[t].kind = "int" /\ t # "c" /\ Len(vs) > 0
+  /\ FoldLeft(LAMBDA acc, v : acc + MinLen(v, 10), 0, vs) + Len(vs) - 1 > left
 
 ---------------------------------------------------------------------------
 (***************************************************************************)
@@ -551,6 +607,18 @@ PrintNum(api, t, v, f, left) ==
           exp |-> [design |-> DesignPrint(t, v, f, left),
                    must |-> IF MustRefuse(t, v, FmtRadix(f.flags), left) THEN "refuse" ELSE "any"]]
 
+PrintSink(api, t, v, pol, cap, left) ==
+  obs' = [a |-> "print",
+          arg |-> [api |-> api, src |-> t, v |-> Canon(v), flags |-> 0, width |-> 0, dec |-> 0, left |-> left, cb |-> pol, cap |-> cap],
+          exp |-> [design |-> DesignSinkScalar(t, v, pol, cap, left),
+                   must |-> IF SinkMustRefuse(t, <<v>>, left) THEN "refuse" ELSE "any"]]
+
+PrintVec(t, vs, pol, cap, left) ==
+  obs' = [a |-> "printvec",
+          arg |-> [src |-> t, vs |-> [i \in 1..Len(vs) |-> Canon(vs[i])], left |-> left, cb |-> pol, cap |-> cap],
+          exp |-> [design |-> DesignSinkVec(t, vs, pol, cap, left),
+                   must |-> IF SinkMustRefuse(t, vs, left) THEN "refuse" ELSE "any"]]
+
 FmtGet(api, chars) ==
   obs' = [a |-> "fmt", arg |-> [api |-> api, chars |-> chars],
           exp |-> [design |-> DesignFmtGet(chars),
@@ -585,7 +653,10 @@ Vec(api, sk, src, dk, dst, vs) ==
 (* invariants: Tier 2 implies Tier 1 *)
 XDesignSound ==
   CASE obs.a = "print"   -> obs.exp.design.r = "skip"
-                            \/ PrintOK(obs.arg.src, obs.arg.v, FmtRadix(obs.arg.flags), obs.exp.design)
+                            \/ /\ PrintOK(obs.arg.src, obs.arg.v, FmtRadix(obs.arg.flags), obs.exp.design)
+                               /\ (obs.arg.api # "num" => SinkOK(obs.exp.design))
+    [] obs.a = "printvec" -> obs.exp.design.r = "skip"
+                            \/ (PrintVecOK(obs.arg.src, obs.arg.vs, obs.exp.design) /\ SinkOK(obs.exp.design))
     [] obs.a = "fmt"     -> FmtOK(obs.arg.chars, obs.exp.design)
     [] obs.a = "fmtlist" -> FmtListOK(obs.arg.chars, obs.exp.design)
     [] obs.a = "dest"    -> DestOK(obs.arg.chars, obs.arg.sep, obs.arg.max, obs.exp.design)
@@ -595,7 +666,7 @@ XDesignSound ==
 
 (* the design prints whenever the shortest numeral fits (not vacuous) *)
 XDesignUseful ==
-  (obs.a = "print" /\ obs.exp.design.r = "refused" /\ TypeTab[obs.arg.src].kind = "int" /\ obs.arg.src # "c"
+  (obs.a = "print" /\ obs.arg.api = "num" /\ obs.exp.design.r = "refused" /\ TypeTab[obs.arg.src].kind = "int" /\ obs.arg.src # "c"
      /\ (obs.arg.flags % 16) \in {0, 1, 2, 3} /\ (obs.arg.v.neg = 0 \/ FmtRadix(obs.arg.flags) = 10)) =>
        LET ml == MinLen(obs.arg.v, FmtRadix(obs.arg.flags)) IN
        \/ ml >= obs.arg.left \/ obs.arg.width >= obs.arg.left
